@@ -19,6 +19,7 @@ fn run(prop: &str, unit: &str, outp: &str) {
     use verif_rt::explore::{install_panic_hook, Explorer, Opts};
     let u = Unit::parse(unit);
     verif_rt::maps::set_policy(u.get_or("ord", "ins"));
+    verif_rt::dag::SCALE_NORM.store(u.get_or("scale", "0") == "1", std::sync::atomic::Ordering::Relaxed);
     install_panic_hook();
     let opts = Opts {
         seed: env_u64("VERIF_SEED", 0),
